@@ -7,6 +7,7 @@ import (
 	"fmt"
 	"strings"
 	"testing"
+	"unicode/utf8"
 
 	"github.com/ipfs/go-cid"
 	mh "github.com/multiformats/go-multihash"
@@ -46,6 +47,7 @@ type c07Prog struct {
 	Mut     string `json:"mut"`
 	Arg     int    `json:"arg"`
 	Arg2    int    `json:"arg2"`
+	InPlace bool   `json:"inPlace"` // mutate the verified entry object itself (and restore it) instead of a copy
 }
 
 var c07Muts = []string{
@@ -55,6 +57,8 @@ var c07Muts = []string{
 	"refs-drop", "refs-add", "refs-swap", "refs-replace",
 	"v", "clock-id", "clock-time+1", "clock-time-1", "clock-time-0", "clock-time-set",
 	"key-other-writer", "sig-other-entry", "sig-flip", "sig-truncate", "sig-other-writer-same-content",
+	// a field replaced by its "empty" value
+	"payload-cleared", "next-cleared", "refs-cleared", "clock-id-cleared", "clock-id-nil", "clock-id-truncated", "clock-id-extended", "logid-prefix", "v-zero",
 }
 
 func genPayload() *rapid.Generator[[]byte] {
@@ -75,6 +79,7 @@ func genC07(t *rapid.T) c07Prog {
 		Mut:     rapid.SampledFrom(c07Muts).Draw(t, "mut"),
 		Arg:     rapid.IntRange(0, 1<<16).Draw(t, "arg"),
 		Arg2:    rapid.IntRange(0, 1<<16).Draw(t, "arg2"),
+		InPlace: rapid.Bool().Draw(t, "inPlace"),
 	}
 	perm := rapid.Permutation(seqInts(len(cidPool))).Draw(t, "links")
 	nn := rapid.IntRange(0, 6).Draw(t, "nnext")
@@ -164,7 +169,24 @@ func runC07(tb ev.TB, p c07Prog) ev.Result {
 	if err := e.Verify(provider, io); err != nil {
 		tb.Fatalf("freshly created entry does not verify (codec %s): %v", world.Codec(p.Codec%3), err)
 	}
+	// the mutation is applied either to a copy or to the very object that was just verified (restored afterwards):
+	// an implementation must not remember "this object verified" across changes to it
 	m := e.Copy()
+	var restore func()
+	if p.InPlace {
+		orig := e.Copy()
+		m = e
+		restore = func() {
+			e.SetPayload(orig.GetPayload())
+			e.SetLogID(orig.GetLogID())
+			e.SetNext(orig.GetNext())
+			e.SetRefs(orig.GetRefs())
+			e.SetV(orig.GetV())
+			e.SetKey(orig.GetKey())
+			e.SetSig(orig.GetSig())
+			e.SetClock(orig.GetClock())
+		}
+	}
 	classes := []string{"mut-" + p.Mut, "codec-" + world.Codec(p.Codec%3).String()}
 	skip := func(why string) ev.Result {
 		return ev.Result{Classes: append(classes, "inapplicable-"+why)}
@@ -276,8 +298,47 @@ func runC07(tb ev.TB, p c07Prog) ev.Result {
 	case "sig-truncate":
 		s := e.GetSig()
 		m.SetSig(append([]byte(nil), s[:p.Arg%len(s)]...))
+	case "payload-cleared":
+		if len(p.Payload) == 0 {
+			return skip("empty-payload")
+		}
+		m.SetPayload([]byte{})
+	case "next-cleared":
+		if len(e.GetNext()) == 0 {
+			return skip("empty-list")
+		}
+		touchedList = len(e.GetNext())
+		m.SetNext([]cid.Cid{})
+	case "refs-cleared":
+		if len(e.GetRefs()) == 0 {
+			return skip("empty-list")
+		}
+		touchedList = len(e.GetRefs())
+		m.SetRefs(nil)
+	case "clock-id-cleared":
+		m.SetClock(entry.NewLamportClock([]byte{}, e.GetClock().GetTime()))
+	case "clock-id-nil":
+		m.SetClock(entry.NewLamportClock(nil, e.GetClock().GetTime()))
+	case "clock-id-truncated":
+		id := e.GetClock().GetID()
+		m.SetClock(entry.NewLamportClock(append([]byte(nil), id[:len(id)-1]...), e.GetClock().GetTime()))
+	case "clock-id-extended":
+		m.SetClock(entry.NewLamportClock(append(append([]byte(nil), e.GetClock().GetID()...), 0), e.GetClock().GetTime()))
+	case "logid-prefix":
+		if len(p.LogID) < 2 {
+			return skip("short-logid")
+		}
+		m.SetLogID(p.LogID[:len(p.LogID)-1])
+		if !utf8.ValidString(m.GetLogID()) {
+			return skip("invalid-utf8-logid")
+		}
+	case "v-zero":
+		m.SetV(0)
 	default:
 		tb.Fatalf("harness: unknown mutation %q", p.Mut)
+	}
+	if restore != nil {
+		defer restore()
 	}
 	// known finding C07/payload-json-collision: the signed bytes carry the payload through
 	// encoding/json as a string, which maps every invalid UTF-8 byte to U+FFFD.
@@ -293,8 +354,11 @@ func runC07(tb ev.TB, p c07Prog) ev.Result {
 		tb.Fatalf("mutation %s (arg %d/%d) of a signed entry still verifies (codec %s): payload %x -> %x", p.Mut, p.Arg, p.Arg2, world.Codec(p.Codec%3), p.Payload, m.GetPayload())
 	}
 	// the untouched original still verifies (the mutation did not alias into it)
+	if restore != nil {
+		restore()
+	}
 	if err := e.Verify(provider, io); err != nil {
-		tb.Fatalf("original entry stopped verifying after mutating a copy: %v", err)
+		tb.Fatalf("original entry stopped verifying after mutating a copy / restoring it: %v", err)
 	}
 	nonASCII := false
 	for _, b := range p.Payload {
